@@ -27,10 +27,12 @@ namespace c09
         if (v.empty()) rep.empty_container = true;
         if (v.size() == 65535) rep.len_65535 = true;
         if (v.size() * sizeof(T) >= 65536) rep.payload_64k = true;
+        if (v.size() >= 256 && !std::is_arithmetic<T>::value) rep.count_over_255 = true;
     }
     template <class K, class V> static void note_flags(const std::map<K, V> &m, StreamReport &rep)
     {
         if (m.empty()) rep.empty_container = true;
+        if (m.size() >= 256) rep.count_over_255 = true;
     }
 
     template <class P, class T> Entry<P> make_entry(const char *name, int depth, bool nontrivial_elem)
